@@ -294,7 +294,7 @@ def _gen_add_polya(rng, n):
 
 contract("src/alignment_info.py:AlignmentInfo.add_polya_info",
          {"self": "rec:AlignmentInfo", "polya_finder": "rec:PolyAFinder", "polya_fixer": "rec:PolyAFixer"}, returns="none",
-         props=["C16"], modifies=["self.polya_info", "self.read_exons", "self.read_blocks", "self.cigar_blocks", "self.exons_changed",
+         props=["C16", "C14"], modifies=["self.polya_info", "self.read_exons", "self.read_blocks", "self.cigar_blocks", "self.exons_changed",
                                   "self.read_start", "self.read_end"],
          requires=["WF(self.read_exons)", "len(self.read_exons) >= 1", "len(self.read_blocks) == len(self.read_exons)",
                    "len(self.cigar_blocks) == len(self.read_exons)", "not self.exons_changed",
